@@ -78,6 +78,11 @@ def build_index(spec):
 		l = spec['l']
 		if form == 'tuple':
 			return tuple(l)
+		if form and form.startswith('array.'):
+			import array
+			return array.array(form[6:], l)
+		if form == 'memoryview':
+			return memoryview(np.array(l, dtype=np.int64))
 		if form and form != 'list':
 			return np.array(l, dtype=form)
 		return list(l)
@@ -127,7 +132,11 @@ def check(ctx, case):
 		sigs = case['sigs']
 		cont = make_container(case['cont'], sigs, dt=case.get('dt'))
 		idx = build_index(case['idx'])
-		before = idx.copy() if isinstance(idx, np.ndarray) else (list(idx) if isinstance(idx, list) else None)
+		import array as _array
+		if isinstance(idx, (_array.array, memoryview)):
+			before = list(idx)
+		else:
+			before = idx.copy() if isinstance(idx, np.ndarray) else (list(idx) if isinstance(idx, list) else None)
 		pyfails = []
 		try:
 			res = cont[idx]
@@ -145,7 +154,10 @@ def check(ctx, case):
 			real = 'exc:' + exc_kind(e)
 		if before is not None:
 			after = idx
-			same = (isinstance(after, np.ndarray) and after.dtype == before.dtype and np.array_equal(after, before)) if isinstance(before, np.ndarray) else after == before
+			if isinstance(after, (_array.array, memoryview)):
+				same = list(after) == before
+			else:
+				same = (isinstance(after, np.ndarray) and after.dtype == before.dtype and np.array_equal(after, before)) if isinstance(before, np.ndarray) else after == before
 			if not same:
 				pyfails.append("caller's index array was modified")
 		case['_err'] = real.startswith('err')
@@ -294,6 +306,22 @@ def run(ctx):
 				idx = {'t': 'mask', 'm': [rng.randint(0, 1) for _ in range(ln)], 'form': rng.choice(['list', 'array'])}
 			dt = rng.choice([None, None, 'u8', 'i8', 'u4']) if cont != 'hdf5' else None
 			sub({'kind': 'get', 'cont': cont, 'sigs': sigs, 'idx': idx, 'dt': dt}, 'random-get')
+		# collections longer than a narrow index type's range, indexed with that narrow type (negative entries must wrap by the collection's length, not the type's)
+		for n in (127, 128, 129, 200, 300):
+			big = [[i] for i in range(n)]
+			for cont in ('array', 'list'):
+				for rep in range(ctx.q(4, 20)):
+					l = [rng.choice([-1, -2, -n, -n + 1, -(n // 2), -127, -128 if n >= 128 else -1, 0, n - 1, rng.randint(-n, n - 1)]) for _ in range(rng.randint(1, 5))]
+					l = [max(-128, min(127, x)) for x in l]
+					sub({'kind': 'get', 'cont': cont, 'sigs': big, 'idx': {'t': 'ints', 'l': l, 'form': 'i1'}}, 'narrow-dtype')
+					l2 = [rng.randint(-n, n - 1) for _ in range(rng.randint(1, 4))]
+					sub({'kind': 'get', 'cont': cont, 'sigs': big, 'idx': {'t': 'ints', 'l': l2, 'form': rng.choice(['i2', 'i4', 'i8', 'array.q', 'array.h', 'array.i', 'memoryview'])}}, 'narrow-dtype')
+		# buffer-protocol index objects on small collections
+		for j in range(ctx.q(150, 1500)):
+			n = rng.randint(1, 8)
+			sigs = contents(rng, n)
+			l = [rng.randint(-n, n - 1) for _ in range(rng.randint(1, 5))]
+			sub({'kind': 'get', 'cont': rng.choice(['array', 'list']), 'sigs': sigs, 'idx': {'t': 'ints', 'l': l, 'form': rng.choice(['array.q', 'array.b', 'array.i', 'array.l', 'memoryview'])}}, 'buffer-index')
 		# mutation histories
 		for j in range(ctx.q(300, 4000)):
 			if not ctx.time_left(0.9):
